@@ -118,6 +118,9 @@ type Exec struct {
 	userState map[string]Value
 	lockWaiters []*G
 	findKey string
+	onlyFilter string
+	onlyCaller *G
+	onlyDone   map[*G]bool
 	records []string
 	pools   map[*Cell]*poolState
 	randCalls int
@@ -178,6 +181,16 @@ func (e *Exec) event(kind, msg string) {
 func (e *Exec) addFinding(kind, label, msg string) {
 	fd := Finding{Kind: kind, Label: label, Msg: msg, Harness: e.harness, Key: e.findKey}
 	e.findKey = ""
+	// one witness per distinct finding is enough: skip the model query for repeats
+	if e.shared != nil {
+		k := "finding|" + kind + "|" + label + "|" + fd.Key
+		if fd.Key == "" {
+			k += msg
+		}
+		if _, dup := e.shared.LoadOrStore(k, true); dup {
+			return
+		}
+	}
 	// model of the current path condition
 	r := e.sol.Check(nil)
 	if r == RSat {
@@ -394,7 +407,7 @@ func runPath(prog *Program, cfg *Config, sol *Solver, harness string, prefix []D
 		inputCnt: map[string]int{}, funcs: map[string]int{}, reached: map[string]bool{},
 		mutexes: map[*Cell]*mutexState{}, wgs: map[*Cell]*wgState{}, atomVals: map[*Cell]Value{},
 		preempted: map[syncKey]bool{}, races: map[string]bool{}, lockEdges: map[string]bool{},
-		userState: map[string]Value{}, shared: shared, syncMaps: map[*Cell]*MapV{}, pools: map[*Cell]*poolState{}, randFaultAt: -1,
+		userState: map[string]Value{}, shared: shared, syncMaps: map[*Cell]*MapV{}, pools: map[*Cell]*poolState{}, randFaultAt: -1, onlyDone: map[*G]bool{},
 	}
 	sol.Reset()
 	s0, u0, k0, t0 := sol.nSat, sol.nUnsat, sol.nUnknown, sol.solveTime
